@@ -24,8 +24,15 @@ Definition procs_text : str :=
   lit "proc pong {n} {ping $n}".
 
 (* the script for (kind, target, catch_each) and the number of nested evaluation levels it needs *)
+(* kind 6: an `if` nest whose innermost body does not parse (an unterminated quote): one level too deep,
+   the limit error must win over the syntax error; when it fits, the syntax error is reported *)
+Definition nest_bad (d : Z) : str :=
+  zrepeat d (fun _ s => lit "if 1 {" ++ s ++ lit "}") (lit "set x ""abc").
+
 Definition script_for (kind target : Z) (catch_each : bool) : str * Z :=
-  if kind <=? 3 then
+  if kind =? 6 then
+    let d := Z.max (target - 1) 0 in (nest_bad d, 1 + d)
+  else if kind <=? 3 then
     let per := if catch_each && negb (kind =? 0) then 2 else 1 in
     let d := Z.max ((target - 1) / per) 0 in
     (nest kind d catch_each, 1 + d * per)
@@ -43,6 +50,11 @@ Definition history_text (h : Z) : str :=
     [c_nl] ++ lit "proc inf {} {inf}" ++ [c_nl] ++ lit "catch {inf}" ++ [c_nl] ++ lit "catch {if 1 {inf}}" ++ [c_nl] ++ lit "set h ok"
   else if h =? 3 then
     [c_nl] ++ lit "proc wa {a} {}" ++ [c_nl] ++ lit "catch {if 1 {wa}}" ++ [c_nl] ++ lit "catch {wa 1 2}" ++ [c_nl] ++ lit "set h ok"
+  else if h =? 4 then
+    [c_nl] ++ lit "proc e1 {} {e2}" ++ [c_nl] ++ lit "proc e2 {} {error deep}" ++ [c_nl]
+    ++ lit "unset -nocomplain errorCode" ++ [c_nl] ++ lit "set errorCode(x) 1" ++ [c_nl]
+    ++ lit "catch {e1}" ++ [c_nl] ++ lit "catch {if 1 {e1}}" ++ [c_nl]
+    ++ lit "unset errorCode" ++ [c_nl] ++ lit "set errorCode NONE" ++ [c_nl] ++ lit "set h ok"
   else [].
 
 Definition c16_scripts (c : term) : list str :=
@@ -71,6 +83,11 @@ Definition too_many : str := lit "too many nested calls to Interp::eval (infinit
 
 Definition is_ok (t : term) : bool := match t with TList (TStr tg :: _) => str_eqb tg (lit "Ok") | _ => false end.
 Definition ok_value (t : term) : str := match t with TList [_; TStr v] => v | _ => [] end.
+Definition is_err_with (t : term) (m : str) : bool :=
+  match t with
+  | TList (TStr tg :: TInt code :: TStr msg :: _) => str_eqb tg (lit "Err") && Z.eqb code 1 && str_eqb msg m
+  | _ => false
+  end.
 Definition is_too_many (t : term) : bool :=
   match t with
   | TList (TStr tg :: TInt code :: TStr msg :: _) => str_eqb tg (lit "Err") && Z.eqb code 1 && str_eqb msg too_many
@@ -95,6 +112,12 @@ Definition c16_spec_ok (c obs : term) : bool :=
             match k, l with
             | O, [final] => is_ok final         (* the full depth N is available again *)
             | S k', plain :: caught :: l' =>
+                (if kind =? 6 then
+                   (* the innermost body is a syntax error: reported when it fits, the limit error otherwise *)
+                   (if fits then is_err_with plain (lit "missing """) else is_too_many plain)
+                   && is_ok caught
+                   && str_eqb (ok_value caught) (if fits1 then lit "missing """ else too_many)
+                 else
                 (if fits then is_ok plain
                  else if guarded then is_ok plain      (* the innermost catch absorbs the error *)
                  else is_too_many plain)
@@ -103,14 +126,14 @@ Definition c16_spec_ok (c obs : term) : bool :=
                 && (if fits1 then true
                     else if guarded && fits then true
                     else if guarded then true
-                    else str_eqb (ok_value caught) too_many)
+                    else str_eqb (ok_value caught) too_many))
                 && go k' l'
             | _, _ => false
             end) reps outs
       && Z.eqb level 0
       && (* `rec deep` ran exactly in the runs that fit *)
          Nat.eqb (length calls)
-           ((if fits then reps else O) + (if fits1 then reps else O) + 1)%nat
+           ((if Z.eqb kind 6 then O else ((if fits then reps else O) + (if fits1 then reps else O))) + 1)%nat
   | _ => false
   end.
 Definition c16_known (c : term) : bool := false.
